@@ -349,6 +349,21 @@ func prop(c Case) error {
 	if err := sameModel("Unmarshal", exp, dec, true); err != nil {
 		return err
 	}
+	// the decoded geometry owns its coordinates: the caller overwrites the byte slice it
+	// handed over (a reused read buffer) and the geometry stays what it was
+	{
+		buf := append([]byte(nil), want...)
+		dg, err := cd.unmarshal(buf)
+		if err != nil {
+			return fmt.Errorf("Unmarshal of a copy of the encoding: %v", err)
+		}
+		for i := range buf {
+			buf[i] = 0xA5
+		}
+		if err := sameModel("the geometry returned by Unmarshal, after the caller overwrote the bytes it was decoded from", exp, dg, true); err != nil {
+			return err
+		}
+	}
 	// the same geometry with members in byte orders of their own
 	if mixed, _, _, _, err := refwkb.EncodeMixed(g, c.XDR, refMode, func(n int) bool { return c.FlipMask>>(uint(n)%64)&1 == 1 }); err == nil && !bytes.Equal(mixed, want) {
 		dm, err := cd.unmarshal(mixed)
